@@ -176,6 +176,9 @@ func (i *interpreter) wrapInt(r *Term, w int, signed bool) *Term {
 	if rlo != nil && rlo.Cmp(lo) >= 0 && rhi.Cmp(hi) <= 0 {
 		return r
 	}
+	if i.provenIn(r, lo, hi) {
+		return r
+	}
 	two := new(big.Int).Lsh(big.NewInt(1), uint(w))
 	var out *Term
 	if signed {
@@ -200,7 +203,7 @@ func positive(t *Term) bool {
 // tdiv/trem: Go's truncated division on Int terms (b != 0 assumed checked by caller).
 func (i *interpreter) tdiv(a, b *Term) *Term {
 	f := i.tf
-	if nonneg(a) && positive(b) {
+	if (nonneg(a) || i.provenNonneg(a)) && (positive(b) || i.provenPositive(b)) {
 		return f.IBin(OIDiv, a, b)
 	}
 	q := f.IBin(OIDiv, f.IAbs(a), f.IAbs(b))
@@ -211,7 +214,7 @@ func (i *interpreter) tdiv(a, b *Term) *Term {
 
 func (i *interpreter) trem(a, b *Term) *Term {
 	f := i.tf
-	if nonneg(a) && positive(b) {
+	if (nonneg(a) || i.provenNonneg(a)) && (positive(b) || i.provenPositive(b)) {
 		return f.IBin(OIMod, a, b)
 	}
 	r := f.IBin(OIMod, f.IAbs(a), f.IAbs(b))
@@ -587,6 +590,13 @@ func (i *interpreter) lexCmp(a, b []value) (lt, eq *Term) {
 			} else {
 				e, l = f.Eq(pa, pb), f.BvCmp(OBvUlt, pa, pb)
 			}
+			lt = f.Or(l, f.And(e, lt))
+			eq = f.And(e, eq)
+			k -= bl
+			continue
+		}
+		// aligned block against concrete bytes: compare the block's parent with the constant
+		if e, l, bl := i.blockVsConst(a, b, k); bl > 1 {
 			lt = f.Or(l, f.And(e, lt))
 			eq = f.And(e, eq)
 			k -= bl
